@@ -63,7 +63,11 @@ func (e *establishLinkHandler) HandleValueAdded(inst directive.Instance, val dir
 			Debug("starting peer hold-open tracking")
 		go func() {
 			e.mtx.Lock()
-			e.rigidRef = e.di.AddReference(nil, false)
+			// The links may be gone again, or an earlier call may have
+			// acquired the reference already: re-check under the lock.
+			if e.valCount != 0 && e.rigidRef == nil {
+				e.rigidRef = e.di.AddReference(nil, false)
+			}
 			e.mtx.Unlock()
 		}()
 	}
